@@ -172,7 +172,7 @@ fn vertex_arg(n: usize) -> usize {
 
 /// Inherent queries of a representation on every digraph of order N, with the
 /// thread count the parallel ones may use symbolic in 1..=P.
-fn inherent<R: Rep, const N: usize>(pmax: usize) {
+pub fn inherent<R: Rep, const N: usize>(pmax: usize) {
     cx::set_vcap(N.max(pmax) + 1);
 
     let p = nd::below(pmax) + 1;
